@@ -3,4 +3,6 @@ pub mod config;
 pub(crate) mod log;
 pub mod lsp;
 pub mod parser;
+#[cfg(vlsp_verif)]
+pub mod verif;
 pub mod version;
